@@ -336,6 +336,8 @@ class Registry:
         for j, e in enumerate(c.ensures):
             if j in c.hidden and not revealed:
                 continue
+            if "_locals" in e:
+                continue          # a proof step about the callee's own locals: not part of its interface
             g = sym.truth(self.eval_clause(interp, e, c, env2))
             if pre is not None:
                 g = z3.Implies(pre, g)
@@ -405,7 +407,7 @@ class Registry:
             env2 = dict(env)
             env2["result"] = res
             revealed = c.label in ctx.ghost.get("revealed", ())
-            post = [sym.truth(self.eval_clause(interp, e, c, env2)) for j, e in enumerate(c.ensures)
+            post = [sym.truth(self.eval_clause(interp, e, c, env2)) for j, e in enumerate(c.ensures) if "_locals" not in e
                     if revealed or j not in c.hidden]
             side = ctx.pc
         finally:
